@@ -269,7 +269,7 @@ class RunResult:
     pass
 
 
-def run_real(cfg, sched_seed=0, stickiness=0.5):
+def make_prog(cfg):
     from kfac.preconditioner import KFACPreconditioner
     import torch.distributed as dist
 
@@ -325,7 +325,12 @@ def run_real(cfg, sched_seed=0, stickiness=0.5):
             'strategy': p.distributed_strategy.name,
         }
         rg = asg.grad_receiver_group(names[0])
-        out['assign']['recv'] = list(rg.ranks) if isinstance(rg, simdist.SimGroup) else [rank]
+        if isinstance(rg, simdist.SimGroup):
+            out['assign']['recv'] = list(rg.ranks)
+        elif rg is not None and not isinstance(rg, simdist._NonMember) and dist.is_initialized() and cfg.world > 1:
+            out['assign']['recv'] = list(dist.get_process_group_ranks(rg))     # real backend (gloo cross-check)
+        else:
+            out['assign']['recv'] = [rank]
         out['trace_start'] = len(w.trace[rank])
         hyper = dict(cfg.hyper)
         try:
@@ -433,6 +438,11 @@ def run_real(cfg, sched_seed=0, stickiness=0.5):
                 out['holds'].append(any(getattr(l, f, None) is not None for f in fields))
         return out
 
+    return prog
+
+
+def run_real(cfg, sched_seed=0, stickiness=0.5):
+    prog = make_prog(cfg)
     wd = simdist.World(cfg.world, seed=sched_seed, stickiness=stickiness)
     wd.partial = {}
     res = wd.run(prog)
